@@ -2,6 +2,7 @@ import Sigc.Model
 import Sigc.Spec
 import Sigc.Lemmas.InvLive
 import Sigc.Lemmas.InvExamples
+import Sigc.Props.C03
 /-!
 # C07 — disconnected slots release their functor and memory; nothing leaks
 
@@ -16,6 +17,8 @@ the functor copies inside reps (`liveCount`, `liveTotal`).
 * `functor_alive_def`, `release_*` — a functor copy is alive iff it sits in the rep of a user slot or of a
   cell of a live impl (by definition of `liveCount`), and the operations that destroy reps release exactly
   the copies those reps held: `invalidate`, `eraseCell`, `sweep`, `~signal_impl`.
+* `functor_alive_iff` — at quiescent points every cell is a still-connected slot of a list owned by a live
+  signal object (uses `C03.quiescent_clean` of work package p_emit).
 -/
 namespace Sigc.C07
 open Sigc.Model Sigc.Inv
@@ -116,14 +119,27 @@ theorem release_on_trackable_death {s : St} (hw : WF s) (o : Nat) :
   · intro i im c hi hc ht j jm d hj hd hde
     exact (invalidateTrackable_gone hw hi hc ht j jm d hj hd hde).2.2.1
 
-/-
-  `functor_alive_iff` (full statement, not proved here): at every quiescent point a functor copy is alive
-  iff it is held by a rep that is the rep of a cell of a live impl with `call = true` or of a live user slot
-  not invalidated by a trackable.  Missing: the invariant "`exec = 0` at quiescent points and then every
-  cell is linked and has no deferred erase pending" (`exec`/`deferred`/end-marker bookkeeping of the emission,
-  work package p_emit); with it the statement follows from `release_*` above, `no_orphans` and
-  `C02.invalidates_all`.
--/
+/-- **functor_alive_iff** (quiescent points).  With `functor_alive_def` (a copy is alive iff it sits in the rep
+    of a user slot variable or of a cell of a live impl), in every reachable state:
+    * every cell of every impl is a *still connected* slot — linked, with a rep — of a list owned by a live
+      signal object: no copy is kept on behalf of a disconnected or cleared slot (its cell has been erased:
+      `C03.quiescent_clean`) or of a destroyed signal (`no_orphans`);
+    * a rep invalidated by a trackable holds no copy (`release_invalidate`): neither a user slot nor a cell
+      keeps a functor alive once a trackable it referred to has died (`release_on_trackable_death`). -/
+theorem functor_alive_iff (fuel : Nat) (P : Prog) (s : St) (h : runTop fuel P {} P.top = some s) :
+    (∀ fid, liveCount s fid = slotsLive fid s.S + implsLive fid s.impls) ∧
+    (∀ i im c, aget s.impls i = some im → c ∈ im.cells →
+        c.linked = true ∧ c.slot.rep.isSome = true ∧ ∃ g hd, aget s.G g = some hd ∧ hd.impl = some i) ∧
+    (∀ sl : SlotB, sl.invalidate.liveAll = 0) := by
+  refine ⟨fun fid => rfl, ?_, liveAll_invalidate⟩
+  intro i im c hi hc
+  have hq := Sigc.C03.quiescent_clean fuel P P.top s h i im hi
+  have hb := Bal.reachable fuel P s h
+  refine ⟨(hq.2.2.2 c hc).2, (hq.2.2.2 c hc).1, ?_⟩
+  rcases (hb.2.1 i im hi).2 with e | e | e
+  · cases e
+  · exact absurd e (Nat.lt_irrefl 0)
+  · exact e
 
 /-! ### examples -/
 
